@@ -249,4 +249,20 @@ def run(repo: Repo, rep: Report, tier: str) -> None:
     from .memo import memo_rule
 
     memo_rule(repo, rep, "C18.R7")
+    rid = "C18.R8"
+    rep.rule(rid, "nothing derived from the field list survives an update outside the class dict _update_fields rebuilds: no operation reachable from "
+                  "reading, dumping, rebuilding or calling a structure / union stores state on the type (a cached write order or call shortcut would "
+                  "outlive add_field / commit)")
+    from ..callgraph import CallGraph
+    from .c08 import residue_rule
+
+    cg = CallGraph(repo)
+    roots = [f.key for f in repo.all_functions() if f.cls is not None and f.cls.name in ("StructureMetaType", "UnionMetaType", "Union", "UnionProxy", "Structure")
+             and f.name in ("_read", "_read_fields", "_write", "_rebuild", "_update", "_proxify", "__setattr__", "__call__", "_read_0")]
+    residue_rule(repo, rep, rid, cg, cg.closure(roots), roots)
+    from .c08 import call_shortcut_rule
+
+    call_shortcut_rule(repo, rep, "C18.R9")
+
+
 
